@@ -495,31 +495,20 @@ impl<'a, T: ColumnProvider> ExpressionExecutionEngine<'a, T> {
                                         let trunc_timestamp = timestamp.duration_trunc(duration).map_err(|_| EvaluationError::FailedToTruncate)?;
                                         Ok(Value::Timestamp(trunc_timestamp))
                                     }
-                                    Err(NonDurationField::Year) => {
-                                        let trunc_timestamp = timestamp
-                                            .with_month(1).unwrap()
-                                            .with_day(1).unwrap()
-                                            .with_hour(0).unwrap()
-                                            .with_minute(0).unwrap()
-                                            .with_second(0).unwrap()
-                                            .with_nanosecond(0).unwrap();
-                                        Ok(Value::Timestamp(trunc_timestamp))
-                                    }
-                                    Err(NonDurationField::Month) => {
-                                        let trunc_timestamp = timestamp
-                                            .with_day(1).unwrap()
-                                            .with_hour(0).unwrap()
-                                            .with_minute(0).unwrap()
-                                            .with_second(0).unwrap()
-                                            .with_nanosecond(0).unwrap();
-                                        Ok(Value::Timestamp(trunc_timestamp))
-                                    }
-                                    Err(NonDurationField::Day) => {
-                                        let trunc_timestamp = timestamp
-                                            .with_hour(0).unwrap()
-                                            .with_minute(0).unwrap()
-                                            .with_second(0).unwrap()
-                                            .with_nanosecond(0).unwrap();
+                                    Err(field) => {
+                                        // Truncate the local date and time; the result may not exist in the local
+                                        // timezone (midnight skipped by a DST change), which is an error, not a panic
+                                        let local = timestamp.naive_local();
+                                        let date = match field {
+                                            NonDurationField::Year => chrono::NaiveDate::from_ymd_opt(local.year(), 1, 1),
+                                            NonDurationField::Month => chrono::NaiveDate::from_ymd_opt(local.year(), local.month(), 1),
+                                            NonDurationField::Day => Some(local.date())
+                                        };
+
+                                        let trunc_timestamp = date
+                                            .and_then(|date| date.and_hms_opt(0, 0, 0))
+                                            .and_then(|truncated| Local.from_local_datetime(&truncated).earliest())
+                                            .ok_or(EvaluationError::FailedToTruncate)?;
                                         Ok(Value::Timestamp(trunc_timestamp))
                                     }
                                 }
